@@ -180,8 +180,9 @@ impl MessageBufReader {
     }
 
     pub fn is_empty(&self) -> bool {
-        if self.start >= self.buf.len() {
-            true
+        if self.start >= self.end {
+            // no buffered byte left: whether the stream has ended is not known yet
+            false
         } else {
             self.buf[self.start] == 0
         }
